@@ -49,10 +49,20 @@ def global_clauses(c, result, cms, threshold, half=None, position_hyp=None):
         x, y = pr([s, cc, 0]), pr([s, cc, 1])
         # the reported value is the maximum and the point is a cell where the map attains it
         # (refined: within half a patch of such a cell)
-        at_max = exists_cell(lambda i, j: V.b_and(coord_is(x, j), coord_is(y, i), V.f_same(cr([s, cc, i, j]), v)))
+        gpk = c.path.ghosts.get("gpk") if (half is not None and getattr(c, "symbolic", False)) else None
+        if gpk is not None:
+            # witness form (implies the existential): the cell is the one the rough detector's
+            # contract exposes, (AI(s,c), AJ(s,c))
+            _, AI, AJ = gpk
+            wi, wj = AI(V.zint(s), V.zint(cc)), AJ(V.zint(s), V.zint(cc))
+            in_rng = V.b_and(wi >= 0, V.i_lt(wi, H), wj >= 0, V.i_lt(wj, W))
+            at_max = V.b_and(in_rng, coord_is(x, wj), coord_is(y, wi), V.f_same(cr([s, cc, wi, wj]), v))
+            attained = V.b_and(in_rng, V.f_same(cr([s, cc, wi, wj]), v))
+        else:
+            at_max = exists_cell(lambda i, j: V.b_and(coord_is(x, j), coord_is(y, i), V.f_same(cr([s, cc, i, j]), v)))
+            attained = exists_cell(lambda i, j: V.f_same(cr([s, cc, i, j]), v))
         if half is not None and position_hyp is not None:
             at_max = V.b_implies(position_hyp, at_max)
-        attained = exists_cell(lambda i, j: V.f_same(cr([s, cc, i, j]), v))
         return V.b_implies(has_above(s, cc), V.b_and(is_upper_bound(v, s, cc), attained, at_max))
 
     def below(s, cc):
@@ -142,23 +152,36 @@ def rough_post(c, cms, threshold):
 class FindGlobalPeaks(_GBase):
     target = "sleap_nn.inference.peak_finding.find_global_peaks"
     props = ("C07", "C12", "C02")
-    cases = ("none",)
-    not_decided = ("find_global_peaks(refinement='integral'): bounded move / NaN channels stay NaN -- the obligations (index bounds of the valid-peak selection through the (S*C) flattening, hull bound) are generated but z3/cvc5 return unknown within budget, so the case is not claimed; the shared pieces it relies on are proved under C06 (integral_regression hull bound, make_centered_bboxes, crop contract)",
-                   "'on a Gaussian bump the refinement moves the estimate toward the true sub-pixel centre' (analytic fact about sampled Gaussians; exp is uninterpreted)",
-                   "integral refinement on maps with a one-pixel side (outside the trusted kornia crop contract)")
+    # "integralP@SxC": integral refinement, patch size P, a batch of S samples x C channels
+    cases = ("none", "integral5@1x1", "integral5@1x2", "integral3@2x1")
+    thorough_cases = cases + ("integral5@2x2", "integral1@1x1", "integral3@1x1", "integral7@1x1")
+    bounded = ("find_global_peaks(refinement='integral') is verified for concrete batch x channel counts (quick: 1x1, 1x2, 2x1; thorough: up to 2x2) and unrolled patch sizes "
+               "(odd sizes: quick 3,5; thorough 1,3,5,7); map height/width, cell values and the threshold stay symbolic.  With symbolic batch/channel counts the "
+               "same obligations are generated but z3/cvc5 return unknown (index bounds through the (S*C) flattening), so that case is not claimed",)
+    not_decided = ("integral refinement with EVEN patch sizes (half-pixel crop boxes: the obligations are generated but both solvers return unknown; the same "
+                   "refinement code in find_local_peaks is decided for even sizes under C06)",
+                   "'on a Gaussian bump the refinement moves the estimate toward the true sub-pixel centre' and 'a symmetric bump centred on a cell is left unmoved' "
+                   "(analytic facts about sampled Gaussians / symmetric patches; only the bound on the move is decided)",
+                   "integral refinement on maps with a one-pixel side (outside the trusted kornia crop contract) and on maps with negative cells (see known finding C06/negative-patch)")
 
     def inputs(self, c, case):
-        d = self._inputs(c)
         if case == "none":
+            d = self._inputs(c)
             d.update(refinement=None, integral_patch_size=5)
         else:
-            d.update(refinement="integral", integral_patch_size=int(case[len("integral"):]))
+            # "integralP@SxC": integral refinement with a concrete batch/channel count
+            P, sc = (case[len("integral"):].split("@") + [None])[:2]
+            S, C = [int(x) for x in sc.split("x")] if sc else (c.dim("S", lo=1), c.dim("C", lo=1))
+            H, W = c.dim("H", lo=1), c.dim("W", lo=1)
+            d = dict(cms=c.tensor("cms", [S, C, H, W], FLOAT, nan_ok=False, lo=0.0), threshold=c.real("threshold"))
+            c.assume(V.f_lt(0.0, d["threshold"]))
+            d.update(refinement="integral", integral_patch_size=int(P))
         return d
 
     def requires(self, c, cms, threshold=0.2, refinement=None, integral_patch_size=5):
         ok = self._requires(cms, threshold)
         if refinement == "integral":
-            ok.append(("odd-patch", isinstance(integral_patch_size, int) and integral_patch_size % 2 == 1))
+            ok.append(("int-patch", isinstance(integral_patch_size, int) and integral_patch_size >= 1))
             ok.append(("map-at-least-2x2", V.b_and(V.i_le(2, cms.shape[2]), V.i_le(2, cms.shape[3]))))
         return ok
 
